@@ -67,6 +67,8 @@ pub trait SFTMap {
 
 #[cfg(all(mmtk_verif, target_pointer_width = "64"))]
 pub use space_map::SFTSpaceMap;
+#[cfg(mmtk_verif)]
+pub use sparse_chunk_map::SFTSparseChunkMap;
 
 pub(crate) fn create_sft_map() -> Box<dyn SFTMap> {
     cfg_if::cfg_if! {
@@ -547,6 +549,13 @@ mod sparse_chunk_map {
     }
 
     impl SFTSparseChunkMap {
+        /// Verification hook: a map without its table, for the index-bound harness
+        /// (`has_sft_entry` does not read the table).
+        #[cfg(mmtk_verif)]
+        pub fn verif_without_table() -> Self {
+            SFTSparseChunkMap { sft: Vec::new() }
+        }
+
         pub fn new() -> Self {
             SFTSparseChunkMap {
                 sft: std::iter::repeat_with(SFTRefStorage::default)
